@@ -160,6 +160,15 @@ class _XmlStructureBaseProperty(ABC):
         if self._default_py_value is not None:
             setattr(instance, self._local_var_name, copy.deepcopy(self._default_py_value))
 
+    def copy_instance_data(self, source: Any, destination: Any):
+        """Give destination its own deep copy of the value that is locally stored in source.
+
+        This method is used internally and should not be called by application.
+        """
+        value = self.get_actual_value(source)
+        if value is not None:
+            setattr(destination, self._local_var_name, copy.deepcopy(value))
+
     @abstractmethod
     def update_xml_value(self, instance: Any, node: xml_utils.LxmlElement):
         """Update node with current data from instance.
